@@ -85,3 +85,44 @@ def load_orig(modules=CORE):
     for name in modules:
         setattr(ns, name, importlib.import_module('cgsmiles.' + name))
     return ns
+
+
+def snapshot_state(ns, modules):
+    """remember the module-level mutable containers (dict / list / set) of the given modules as loaded"""
+    import copy
+    snap = {}
+    for name in modules:
+        mod = getattr(ns, name, None)
+        if mod is None:
+            continue
+        for k, v in list(vars(mod).items()):
+            if k.startswith('__') or isinstance(v, type) or callable(v):
+                continue
+            if type(v) in (dict, list, set) or type(v).__name__ in ('defaultdict', 'OrderedDict'):
+                try:
+                    snap[(name, k)] = copy.deepcopy(v)
+                except Exception:
+                    pass
+    ns._state_snapshot = snap
+    return snap
+
+
+def reset_state(ns):
+    """restore those containers in place: state must not leak from one explored path (= one process) into the next"""
+    import copy
+    for (name, k), v in getattr(ns, '_state_snapshot', {}).items():
+        mod = getattr(ns, name)
+        cur = vars(mod).get(k)
+        if cur is None or type(cur) is not type(v):
+            vars(mod)[k] = copy.deepcopy(v)
+            continue
+        if cur == v:
+            continue
+        if isinstance(cur, (dict, set)):
+            cur.clear()
+            cur.update(copy.deepcopy(v))
+        elif isinstance(cur, list):
+            cur[:] = copy.deepcopy(v)
+    # containers that did not exist at load time but are module-level now (created lazily) are dropped
+    for name in {n for (n, _k) in getattr(ns, '_state_snapshot', {})} | set(getattr(ns, '_modules', [])):
+        pass
